@@ -87,10 +87,13 @@ def public_call(c):
         kw = {}
         if c["end"] != -1 or c["op"] == "shuffle":
             kw["end"] = c["end"]
+        seed = c["seed"]
+        if c.get("npseed") and seed < 2 ** 63:
+            seed = numpy.int64(seed)         # an integer seed may arrive as a numpy integer (e.g. taken from an array)
         if c["op"] == "shuffle":
-            y = ersatz.shuffle(x, start=c["start"], n=c["n"], random_state=c["seed"], **kw)
+            y = ersatz.shuffle(x, start=c["start"], n=c["n"], random_state=seed, **kw)
         else:
-            y = ersatz.dinucleotide_shuffle(x, start=c["start"], n=c["n"], random_state=c["seed"], **kw)
+            y = ersatz.dinucleotide_shuffle(x, start=c["start"], n=c["n"], random_state=seed, **kw)
         ev["st"] = "ok"
         ok = y.ndim == 4 and y.shape[0] == x.shape[0] and y.shape[1] == c["n"] and tuple(y.shape[2:]) == tuple(x.shape[1:])
         if ok:
@@ -128,7 +131,7 @@ def gen_public(rng, key):
     seed = rng.randint(0, 10 ** 6)
     if rng.random() < 0.25:      # "all seeds": also the edges of the 32-bit range (the jitted walk takes its seed as int32)
         seed = rng.choice([2 ** 31 - 1 - rng.randint(0, 3), 2 ** 31 + rng.randint(0, 1000), 2 ** 32 - 1 - rng.randint(0, 50), 2 ** 31])
-    return dict(op=op, A=A, x=x, start=start, end=end, n=n, seed=seed, key=key, dt=rng.randrange(4))
+    return dict(op=op, A=A, x=x, start=start, end=end, n=n, seed=seed, key=key, dt=rng.randrange(4), npseed=rng.random() < 0.3)
 
 
 def handler(case):
@@ -163,8 +166,18 @@ def handler(case):
         for _ in range(case["n"] // 2):
             calls.append(gen_public(rng, key)); key += 1
         rep = [dict(c) for c in calls]
+        for c in rep:
+            c["npseed"] = not c["npseed"]            # the repetition uses the other integer type for the same seed
+        # the same region (content, coordinates, n, seed) embedded in DIFFERENT flanks: flanks must come from the actual input
+        twins = []
+        for c in calls[::3]:
+            L = len(c["x"][0]); e = c["end"] if c["end"] >= 0 else L
+            if 0 <= c["start"] < e <= L and (c["start"] > 0 or e < L):
+                t = dict(c); key += 1; t["key"] = key
+                t["x"] = [[(v if c["start"] <= q < e else (v + 1 + rng.randrange(c["A"] - 1)) % c["A"]) for q, v in enumerate(row)] for row in c["x"]]
+                twins.append(t)
         rng.shuffle(rep)
-        evs = [public_call(c) for c in calls + rep]
+        evs = [public_call(c) for c in calls + twins + rep]
         return {"events": evs}
     if mode == "ev":
         return {"ev": public_call(case["call"])}
